@@ -15,7 +15,8 @@ pub const KINDS: &[&str] = &["proof-moved", "sponge-absorb-dropped", "sponge-abs
 
 pub fn generate(run_seed: u64) -> Scenario {
     let mut g = Gen::new(run_seed);
-    let scheme = pick_scheme(&mut g.r, &|_| true);
+    // the adapter-wrapped bespoke schemes (raw KZG10, MultilinearPC) take no transcript at all
+    let scheme = pick_scheme(&mut g.r, &|f| !matches!(f, Family::Kzg10 | Family::Mlpc));
     let (cfg, polys) = g.workload(&scheme, 3);
     let points = g.points(3);
     let n_ops = g.r.gen_range(1..=6);
@@ -186,6 +187,13 @@ pub fn run<S: Scheme>(scn: &Scenario, log: &EventLog) -> RunResult {
             res.stats.probe("exempt:all-constant");
             continue;
         }
+        // toy-size linear-code instances without the well-formedness challenge are bound to the
+        // transcript only through a few index bits: a coincidence is legitimate there
+        let weakest = op_labels(scn, op).iter().filter_map(|l| sess.verifier.comms.iter().find(|c| c.label() == l)).filter_map(|c| S::transcript_binding_bits(&sess.verifier.vk, c.commitment())).fold(f64::INFINITY, f64::min);
+        if weakest < 64.0 {
+            res.stats.probe("exempt:toy-size-index-binding");
+            continue;
+        }
         if d.accepted() {
             res.violations.push(viol(scn, "binding-to-transcript", &f.kind, op_kind(op), format!("proof of operation {} ({}) accepted against a different transcript state ({} {}) {}", f.op, op_shape(op, scn), f.kind, f.target, why)));
         }
@@ -199,4 +207,16 @@ pub fn run<S: Scheme>(scn: &Scenario, log: &EventLog) -> RunResult {
     let st = sess.stats.clone();
     res.stats.merge(&st);
     res
+}
+
+/// labels of the polynomials an operation touches
+fn op_labels(scn: &Scenario, op: &Op) -> Vec<String> {
+    let mut idx: Vec<usize> = match op {
+        Op::Open { polys, .. } => polys.clone(),
+        Op::Batch { queries } => queries.iter().map(|q| q.0).collect(),
+        Op::Lc { lcs, queries } => queries.iter().flat_map(|q| lcs[q.0].terms.iter().filter_map(|t| t.1)).collect(),
+    };
+    idx.sort();
+    idx.dedup();
+    idx.into_iter().map(|i| scn.polys[i].label.clone()).collect()
 }
